@@ -22,6 +22,9 @@ use std::panic::{catch_unwind, AssertUnwindSafe};
 
 pub struct Ctx {
     pub resizers: HashMap<i64, Resizer>,
+    /// the back-end the harness last selected on each long-lived resizer (selected again only when a case asks for
+    /// another one: state carried across calls, resets and clones is the library's)
+    pub selected: HashMap<i64, String>,
     pub pools: HashMap<usize, rayon::ThreadPool>,
     pub srgb: Option<PixelComponentMapper>,
     pub gamma: Option<PixelComponentMapper>,
@@ -163,8 +166,14 @@ fn imgop(ctx: &mut Ctx, case: &Value, out: &mut Map<String, Value>) {
             Some(r) => r,
             None => &mut fresh,
         };
-        unsafe {
-            rz.set_cpu_extensions(cpu);
+        let cpu_name = case.get("cpu").and_then(|c| c.as_str()).unwrap_or("none").to_string();
+        if rz_slot < 0 || ctx.selected.get(&rz_slot) != Some(&cpu_name) {
+            unsafe {
+                rz.set_cpu_extensions(cpu);
+            }
+            if rz_slot >= 0 {
+                ctx.selected.insert(rz_slot, cpu_name);
+            }
         }
         let default_opts = fir::ResizeOptions::new();
         // "opt_none": the call passes `None` for the options (library defaults)
@@ -305,12 +314,18 @@ fn rz_ctl(ctx: &mut Ctx, case: &Value, out: &mut Map<String, Value>) {
             let to = case["to"].as_i64().unwrap();
             let c = ctx.resizers.entry(slot).or_default().clone();
             ctx.resizers.insert(to, c);
+            match ctx.selected.get(&slot).cloned() {
+                Some(s) => ctx.selected.insert(to, s),
+                None => ctx.selected.remove(&to),
+            };
         }
         "drop" => {
             ctx.resizers.remove(&slot);
+            ctx.selected.remove(&slot);
         }
         "new" => {
             ctx.resizers.insert(slot, Resizer::new());
+            ctx.selected.remove(&slot);
         }
         w => panic!("harness: rz_ctl {w}"),
     }
@@ -375,6 +390,7 @@ fn main() {
     let mut trace = BufWriter::new(trace);
     let mut ctx = Ctx {
         resizers: HashMap::new(),
+        selected: HashMap::new(),
         pools: HashMap::new(),
         srgb: None,
         gamma: None,
